@@ -644,14 +644,39 @@ theorem fill_model_is_source_residuals {A : List (List α)} {bs : List (List α)
   ⟨ssq_is_sum_of_squares hs, fun b x => residual_is_source A b x⟩
 
 /-- **lookup precedence.**  The relations come from the user's path exactly when the source's test
-    (`not Path(packaged).is_file() and Path(system).is_file()`, extracted as a tree) holds — the packaged name first, the
-    user's file only when no packaged file of that name exists; `Path(system).exists()` is not consulted. -/
+    (`(Path(system).name != system or not Path(packaged).is_file()) and Path(system).is_file()`, extracted as a tree) holds:
+    a string with a directory part that names an existing file is that file; a bare name means the packaged file of that
+    name, and the user's file only when no packaged file of that name exists; `Path(system).exists()` is not consulted.
+    The probe `Path(packaged).is_file()` has its file-system meaning (`constraints/./cubic` IS `constraints/cubic`,
+    `Lemmas/FillSource.lean: packagedProbe`): the test as it stood before the fix of the `./cubic` finding
+    (`not Path(packaged).is_file() and Path(system).is_file()`) does not satisfy this statement. -/
 theorem fill_model_is_source_lookup (env : Env) (sys : String) :
     ∃ useUser, evalBool (lookupEnv (α := α) env sys) Generated.fillLookupTest = some useUser ∧
       resolve env sys =
         if useUser then (match env.userFile sys with | some rows => .ok rows | none => .error .fileNotFound)
         else packaged sys :=
   resolve_is_source env sys
+
+/-- **the repaired behaviour, outright.**  (i) A string WITH a directory part (`./cubic`, `sub/cubic`, `/abs/cubic`) that names
+    an existing relations file is used as the relations, whatever its base name — also when the base name is a packaged
+    crystal system.  (ii) A packaged system name has NO directory part, and for it nothing in the working directory is
+    consulted: two arbitrary environments give the same outcome. -/
+theorem path_with_directory_part_is_used (env : Env) (sys : String) (rows : Rows)
+    (hd : FillSource.hasDirPart sys = true) (h : env.userFile sys = some rows) (P : Params α) (t : Table α) :
+    resolve env sys = .ok rows ∧
+    fill env (some sys) P t =
+      match recognise (t.map (·.1)) with
+      | .error e => .error e
+      | .ok sel => fillWith rows sel P t := by
+  have hr := FillSource.dir_path_is_used env sys rows hd h
+  refine ⟨hr, ?_⟩
+  simp only [fill, hr]
+  cases recognise (t.map (·.1)) <;> rfl
+
+theorem bare_packaged_name_ignores_cwd (sys : String) (rows : Rows) (hp : packaged sys = .ok rows) :
+    FillSource.hasDirPart sys = false ∧
+    ∀ (env env' : Env) (P : Params α) (t : Table α), fill env (some sys) P t = fill env' (some sys) P t :=
+  ⟨FillSource.packaged_ok_bare hp, fun env env' P t => lookup_env_irrelevant_packaged env env' sys rows hp P t⟩
 
 /-- **equations.**  (i) For every packaged system the relation rows of the model are, as the rational rows handed to the
     least squares and in order, what the source's rule (`parts = line.split("=")`, a row `parts[0] - part` for every
@@ -773,5 +798,16 @@ example :
     FillSource.chooseKey Generated.fillKeyCompare ["V", "C12", "c12"] "c12" = "C12" ∧
     FillSource.chooseKey Generated.fillKeyCompare ["V", "C11"] "c12" = "c12" := by
   decide +kernel
+
+/-- the `./cubic` finding, on the model: a user file `./cubic` holding only `c11 = c22` is USED (the table below is then
+    under-determined: refused for rank), while the bare name `cubic` fills the same table with the packaged relations although
+    the same file is there; the strings have / do not have a directory part -/
+example :
+    let rel : Rows := [⟨[1, 0, 0, 0, 0, 0, -1, 0, 0, 0, 0, 0, 0, 0, 0, 0, 0, 0, 0, 0, 0], 0, 1⟩]
+    let env : Env := ⟨fun _ => true, fun s => if s = "./cubic" ∨ s = "cubic" then some rel else none⟩
+    FillSource.hasDirPart "./cubic" = true ∧ FillSource.hasDirPart "cubic" = false ∧
+    outcome (fill env (some "./cubic") (P0 false false) [("c11", [300]), ("c12", [100]), ("c44", [80])]) = "refuse:rank" ∧
+    outcome (fill env (some "cubic") (P0 false false) [("c11", [300]), ("c12", [100]), ("c44", [80])])
+      = "ok:c11=300,c12=100,c44=80,c13=100,c22=300,c23=100,c33=300,c55=80,c66=80" := by decide +kernel
 
 end Cij.C09
